@@ -65,7 +65,7 @@ func (xp xpathImpl) resolveExpression(name string, e xpath.Expression, sel *Sele
 	case *xpath.Operator:
 		return xp.resolveOperator(x, name, sel)
 	}
-	panic("unknown xpath expression")
+	return false, fmt.Errorf("%w. unsupported xpath expression on '%s'", fc.BadRequestError, name)
 }
 
 func (xp xpathImpl) resolveOperator(oper *xpath.Operator, ident string, s *Selection) (bool, error) {
